@@ -293,3 +293,36 @@ func hasFactor(key, f string) bool {
 	}
 	return false
 }
+
+// Terms returns the normal form as key -> coefficient ("" is the constant term).
+func (e *E) Terms() map[string]int64 {
+	m := map[string]int64{}
+	for _, t := range flatten(e, 0) {
+		m[t.key] += t.coef
+	}
+	for k, c := range m {
+		if c == 0 {
+			delete(m, k)
+		}
+	}
+	return m
+}
+
+// SplitGuards splits a term key "[a ∧ b]rest" into its guards and the rest.
+func SplitGuards(key string) ([]string, string) {
+	if strings.HasPrefix(key, "[") {
+		if i := strings.Index(key, "]"); i > 0 {
+			return strings.Split(key[1:i], " ∧ "), key[i+1:]
+		}
+	}
+	return nil, key
+}
+
+// JoinGuards is the inverse of SplitGuards (guards are sorted).
+func JoinGuards(gs []string, rest string) string {
+	if len(gs) == 0 {
+		return rest
+	}
+	sort.Strings(gs)
+	return "[" + strings.Join(gs, " ∧ ") + "]" + rest
+}
